@@ -160,7 +160,21 @@ func (e *env) witness(st *step, res *result, extra map[string]interface{}) map[s
 	return w
 }
 
+// firstWitness keeps, for every violation key of the run, a one-line witness (ev keeps replay files
+// for the first 20 keys only); it ends up in the evidence as violation_keys.
+var firstWitness = map[string]string{}
+
 func (e *env) violate(key, what string, wit interface{}) {
+	if _, ok := firstWitness[key]; !ok {
+		line := clip(what)
+		if m, ok := wit.(map[string]interface{}); ok {
+			if s, ok := m["summary"].(string); ok {
+				line = s
+			}
+		}
+		firstWitness[key] = line
+		e.r.Set("violation_keys", firstWitness)
+	}
 	e.seen[key] = true
 	e.r.Count("violations_"+e.phase, 1)
 	e.r.Violation(key, what, wit)
